@@ -351,6 +351,9 @@ def _hex(b):
 
 def obs_pdu(x, kind) -> dict:
     """Every user-visible parameter of a PDU object (header included)."""
+    if type(x) is not pdu_class(kind):
+        # (a decoder that hands back another class: reported as what was observed, not as a slip of the harness)
+        return {"object of another class": type(x).__name__}
     o = {"header": obs_header(x.pdu_header), "packet_len": int(x.packet_len)}
     if kind == "eof":
         o.update(cc=int(x.condition_code), checksum=_hex(x.file_checksum), size=int(x.file_size), fault=None if x.fault_location is None else _hex(x.fault_location.value))
